@@ -10,6 +10,14 @@ Binding B: seeded random atmospheres (T-profiles, compositions, opacity magnitud
       ngauss 1..8, stars, planets, distances) -> isothermal identity, hot/cold bounds, the
       Gauss-Legendre facts and the direct-image proportionality law, each logged event validated by
       TLC (spec/Trace_Emission.tla) + canary.
+Correlated-k mode (the statement quantifies over both opacity modes): spec/EmissionK.tla (extends KTable /
+      Emission: the same state machine with weight-averaged slant transmittances, no clamp), exhaustive
+      configs + expected counterexample (slant factor applied outside the k-sum), exported vectors with
+      NON-degenerate coefficients over visible surfaces replayed through pickle k-tables into
+      EmissionModel / DirectImageModel, and random k-table atmospheres in binding B.
+History independence (spec/Functional.tla, harness/history.py): long-lived Emission / DirectImage models
+      whose spectral window (equally long windows passed to model(wngrid=..)), star temperature, planet
+      radius, temperature parameter and k-table set change between evaluations equal freshly built ones.
 """
 import math
 import os
@@ -20,6 +28,7 @@ import numpy as np
 
 from ..core import Machinery, frac, close, validate_trace
 from .. import fx_emission as fx
+from .. import fx_ktable as fxk
 
 WN = [800.0, 2500.0]
 TK = {1: 600.0, 2: 1100.0, 3: 1700.0}
@@ -129,7 +138,7 @@ def check_vector_group(ctx, tp, vecs, cache):
                                     intensity_terms=v0['inten'][0][0])))
 
 
-def run_vectors(ctx, cfg, label):
+def run_vectors(ctx, cfg, label, ratios):
     res = ctx.check_spec('export-' + label, 'MC_Emission', cfg, workers=1, deque=True)
     vecs = res.tagged('VEC')
     if not vecs:
@@ -137,10 +146,9 @@ def run_vectors(ctx, cfg, label):
     groups = {}
     for v in vecs:
         groups.setdefault(tuple(v['tp']), []).append(v)
-    cache = dict(bstar_spec=[7, 11], direct_ratios=[])
+    cache = dict(bstar_spec=[7, 11], direct_ratios=ratios)
     for tp, g in sorted(groups.items()):
         check_vector_group(ctx, list(tp), g, cache)
-    finish_direct_law(ctx, cache['direct_ratios'])
     fx.reset_all()
     return len(vecs)
 
@@ -153,6 +161,100 @@ def finish_direct_law(ctx, ratios):
     for r, cls, vec in ratios:
         ctx.verdict('direct_image_proportional', ok_ref and abs(r - ref) <= REL * abs(ref), cls=cls,
                     detail='direct/(flux Rp^2/d^2) = %r, median %r' % (r, ref), vector=vec)
+
+
+# ----------------------------------------------------------------------------
+# binding A in correlated-k mode (spec/EmissionK.tla)
+# ----------------------------------------------------------------------------
+
+def kcls_of(v):
+    return 'ktable:%s:%s:%s:%s:q%d:n%d:ng%d' % ('iso' if v['isothermal'] else 'noniso', 'visible' if v['visible'] else 'opaque',
+                                               'degenerate' if v['degenerate'] else 'generic', v['kind'], v['qid'],
+                                               len(v['kk']), v['ng'])
+
+
+def check_kvector_group(ctx, d, tp, vecs, cache):
+    """All exported k-table vectors with one temperature profile: one emission + one direct-image model, both
+    constructed and evaluated under opacity_method='ktables' on a pickle table written per vector."""
+    nw = len(vecs[0]['kk'][0])
+    ng = vecs[0]['ng']
+    wn = WN[:nw]
+    bc = bcols()
+    temps = [TK[t] for t in tp]
+    v0 = vecs[0]
+    rp, rs, dist = v0['rp'], v0['rs'], v0['dist']
+    fx.reset_all()
+    em = fxk.KAtmos(d, 'emission', temps, wn, ng, star_T=STAR_T, rp_over_rs=Fraction(rp, rs), with_grey=True)
+    di = fxk.KAtmos(d, 'direct', temps, wn, ng, star_T=STAR_T, rp_over_d=Fraction(rp, dist), with_grey=True)
+    bstar = [fx.planck_b(w, STAR_T) for w in wn]
+    done = {}
+    for v in vecs:
+      cls = kcls_of(v)
+      try:
+        key = (repr(v['kk']), repr(v['c']), v['wid'], v['qid'])
+        if key not in done:
+            em.write(v['kk'], [float(frac(x)) for x in v['wts']])
+            em.set_grey(v['c'])
+            di.set_grey(v['c'])
+            mu_raw, w_raw = fx.raw_quadrature(v['quad'])
+            em.model.set_quadratures(mu_raw, w_raw)
+            di.model.set_quadratures(mu_raw, w_raw)
+            I, imu, w, _ = em.model.partial_model()
+            _, flux, _, _ = em.model.model()
+            _, dflux, _, _ = di.model.model()
+            done[key] = (np.array(I), np.array(flux), np.array(dflux))
+            for a in range(len(v['quad'])):
+                for wi in range(nw):
+                    exp, _ = fx.bsum_float(v['kint'][a][wi], bc[wi])
+                    got = float(I[a][wi])
+                    ctx.verdict('intensity_formula', abs(got - exp) <= REL * abs(exp), cls=cls,
+                                detail='k-table mode, angle 1/mu=%s wn=%s got %r expected %r' % (v['quad'][a][0], wn[wi], got, exp),
+                                vector=dict(v, what='kintensity', a=a, w=wi))
+                    lo, hi = bc[wi][v['tmin']], bc[wi][v['tmax']]       # no clamp in this branch: no slack
+                    ctx.verdict('hot_cold_bounds', lo * (1 - 1e-12) <= got <= hi * (1 + 1e-12), cls=cls,
+                                detail='k-table mode, got %r not in [%r, %r]' % (got, lo, hi), vector=dict(v, what='kintensity', a=a, w=wi))
+        I, flux, dflux = done[key]
+        if v['kind'] == 'eclipse':
+            for wi in range(nw):
+                exp, _ = fx.bsum_float(v['out'][wi], bc[wi])
+                exp = exp * cache['bstar_spec'][wi] / bstar[wi]
+                got = float(flux[wi])
+                ctx.verdict('eclipse_flux_formula', abs(got - exp) <= REL * abs(exp), cls=cls,
+                            detail='k-table mode, wn=%s got %r expected %r' % (wn[wi], got, exp), vector=dict(v, what='keclipse', w=wi))
+                if v['isothermal'] and v['weightsok']:
+                    ratio = fx.planck_b(wn[wi], temps[0]) / bstar[wi] * (Fraction(rp, rs) ** 2)
+                    r = got / float(ratio)
+                    ctx.verdict('isothermal_identity', 1 - 1e-12 <= r <= 1 + 1e-12, cls=cls,
+                                detail='k-table mode, flux/blackbody ratio = %r' % r, vector=dict(v, what='keclipse', w=wi))
+        else:
+            for wi in range(nw):
+                fl, _ = fx.bsum_float(v['flux'][wi], bc[wi])
+                denom = 2.0 * math.pi * fl * (di.a.rp_m / di.a.d_m) ** 2
+                cache['direct_ratios'].append((float(dflux[wi]) / denom, cls, dict(v, what='kdirect', w=wi)))
+      except Exception as ex:
+        code_raised(ctx, ex, 'vector:' + cls, dict(v, what='kraise'))
+        fx.set_mode('xsec')
+    ctx.add_sample(dict(vector=dict(kk=v0['kk'], wts=v0['wts'], c=v0['c'], tp=tp, quad=v0['quad'], kind=v0['kind'],
+                                    intensity_terms=v0['kint'][0][0])))
+
+
+def run_kvectors(ctx, cfg, label, ratios):
+    res = ctx.check_spec('export-' + label, 'MC_EmissionK', cfg, workers=1, deque=True)
+    vecs = res.tagged('VEC')
+    # what makes the position of the slant factor observable: coefficients that differ across the points,
+    # a surface that is still seen, an angle with 1/mu > 1
+    sharp = [v for v in vecs if v['visible'] and not v['degenerate'] and any(q[0] > 1 for q in v['quad'])]
+    if len(sharp) < 20 or not any(v['isothermal'] for v in sharp):
+        raise Machinery('%s exports too few non-degenerate vectors with a visible surface (%d)' % (cfg, len(sharp)))
+    groups = {}
+    for v in vecs:
+        groups.setdefault((tuple(v['tp']), v['ng'], len(v['kk'][0])), []).append(v)
+    cache = dict(bstar_spec=[7, 11], direct_ratios=ratios)
+    with fx.TempDir() as d:
+        for (tp, ng, nw), g in sorted(groups.items()):
+            check_kvector_group(ctx, d, list(tp), g, cache)
+    fx.reset_all()
+    return len(vecs)
 
 
 def check_planck(ctx):
@@ -214,8 +316,44 @@ def scaled(x):
     return m
 
 
-def run_traces(ctx, n_models):
+def random_katmos(rng, path, kind, iso):
+    """Random atmosphere in correlated-k mode: 2..12 layers, 1..6 quadrature points, coefficients that differ
+    across the points by up to three decades, columns from transparent (surface seen) to opaque."""
+    n = rng.randint(2, 12)
+    nw = rng.randint(2, 4)
+    ngk = rng.randint(1, 6)
+    wn = sorted(rng.uniform(300.0, 9000.0) for _ in range(nw))
+    temps = [rng.uniform(300.0, 2500.0)] * n if iso else [rng.uniform(300.0, 2500.0) for _ in range(n)]
+    k = fxk.KAtmos(path, kind, temps, wn, ngk, star_T=rng.uniform(3000.0, 7000.0), mix=10 ** rng.uniform(-6, -2),
+                   planet_radius=rng.uniform(0.3, 2.0), planet_mass=rng.uniform(0.3, 3.0),
+                   star_radius=rng.uniform(0.3, 2.0), distance=rng.uniform(1.0, 50.0),
+                   pmin=10 ** rng.uniform(-2, 1), pmax=10 ** rng.uniform(4, 6.5), ngauss=rng.randint(1, 8),
+                   with_grey=rng.random() < 0.4)
+    if rng.random() < 0.4:
+        wts = [float(x) / 2.0 for x in np.polynomial.legendre.leggauss(ngk)[1]]
+    else:
+        r = [rng.uniform(0.05, 1.0) for _ in range(ngk)]
+        wts = [x / sum(r) for x in r]
+    mag = rng.choice([1e-3, 0.05, 0.3, 1.0, 1.0, 3.0, 12.0])
+    spread = rng.choice([0.0, 1.0, 2.0, 3.0])
+    kk = [[[mag * rng.choice([0.0, 0.3, 1.0, 2.5]) * rng.uniform(0.2, 1.8) * 10 ** (spread * ((g + 0.5) / ngk - 0.5))
+            for g in range(ngk)] for _ in range(nw)] for _ in range(n)]
+    k.write(kk, wts)
+    if k.grey is not None:
+        k.set_grey([[rng.choice([0.0, 0.05, 0.5]) * rng.uniform(0.5, 1.5) for _ in range(nw)] for _ in range(n)])
+    a = k.a
+    a.saturated = a.maybe_saturated = False        # the k-table branch never clamps: no slack
+    return a
+
+
+def run_traces(ctx, n_models, n_k=0):
+    with fx.TempDir() as kpath:
+        _run_traces(ctx, n_models, n_k, kpath)
+
+
+def _run_traces(ctx, n_models, n_k, kpath):
     rng = random.Random(ctx.seed * 104729 + 2)
+    krng = random.Random(ctx.seed * 104729 + 7)
     events, meta = [], {}
     direct = []
 
@@ -224,16 +362,22 @@ def run_traces(ctx, n_models):
         events.append(ev)
         meta[ev['id']] = (cls, detail, vec)
 
-    for i in range(n_models):
+    for i in range(n_models + n_k):
         fx.reset_all()
-        iso = (i % 2 == 0)
-        kind = 'direct' if i % 5 == 4 else 'emission'
-        st = rng.getstate()
-        a = random_atmos(rng, kind, iso)
-        m = a.model
-        ng = len(m._mu_quads)
-        vec = dict(trace=True, model_index=i, seed=ctx.seed)
+        kmode = i >= n_models
+        if kmode:
+            j = i - n_models
+            iso = (j % 2 == 0)
+            kind = 'direct' if j % 4 == 3 else 'emission'
+            vec = dict(trace=True, kmode=True, model_index=j, seed=ctx.seed)
+        else:
+            iso = (i % 2 == 0)
+            kind = 'direct' if i % 5 == 4 else 'emission'
+            vec = dict(trace=True, model_index=i, seed=ctx.seed)
         try:
+            a = random_katmos(krng, kpath, kind, iso) if kmode else random_atmos(rng, kind, iso)
+            m = a.model
+            ng = len(m._mu_quads)
             # Gauss-Legendre facts of the quadrature actually used by this model
             mu = [float(x) for x in m._mu_quads]
             wq = [float(x) for x in m._wi_quads]
@@ -248,7 +392,7 @@ def run_traces(ctx, n_models):
             I, imu, w, _ = m.partial_model()
             _, out, _, _ = m.model()
             slack = 1 if a.maybe_saturated else 0
-            cls0 = '%s:%s:%s:ngauss%d' % ('iso' if iso else 'noniso', 'sat' if a.saturated else 'unsat', kind, ng)
+            cls0 = '%s%s:%s:%s:ngauss%d' % ('ktable:' if kmode else '', 'iso' if iso else 'noniso', 'sat' if a.saturated else 'unsat', kind, ng)
             tmin, tmax = min(a.temps), max(a.temps)
             rI_lo, rI_hi, rF_lo, rF_hi = [], [], [], []
             twoF = 2.0 * np.sum(I * (w / imu), axis=0)      # per unit pi: flux_total / pi, from the model's own I
@@ -319,45 +463,123 @@ def run_traces(ctx, n_models):
         raise Machinery('canary (weights not halved) accepted: Trace_Emission is vacuous')
 
 
+# ----------------------------------------------------------------------------
+# history independence of long-lived models (spec/Functional.tla)
+# ----------------------------------------------------------------------------
+
+def history_scenarios(ctx, root):
+    """Settings a user changes between evaluations of ONE model: the spectral window passed to model(wngrid=..)
+    (three windows with equally many native points, or two windows and the native grid), the star temperature,
+    the planet radius, a temperature-profile parameter, the directory of k-tables."""
+    native = fxk.linear_native()
+    ksets = [fxk.KSet(root, 0, native, [0.05, 0.15, 0.3, 0.5], 2.0),
+             fxk.KSet(root, 1, native, [0.25, 0.25, 0.5], 3.0),
+             fxk.KSet(root, 2, native, [2.0 / 3.0, 1.0 / 3.0], 0.0)]
+    W = fxk.WindowScenario
+    return [W('emission:xsec', 'emission', 'xsec', ['window', 'star_T', 'T']),
+            W('emission:xsec:isothermal', 'emission', 'xsec', ['window', 'star_T', 'T'], tprofile='iso', native_as_third=True),
+            W('direct:xsec', 'direct', 'xsec', ['window', 'planet_radius', 'T']),
+            W('emission:ktables', 'emission', 'ktables', ['window', 'star_T', 'kset'], ksets=ksets),
+            W('direct:ktables', 'direct', 'ktables', ['window', 'kset', 'T'], ksets=ksets, native_as_third=True)]
+
+
+def run_histories(ctx, nwalks):
+    from .. import history
+    with fx.TempDir() as root:
+        fx.reset_all()
+        scs = history_scenarios(ctx, root)
+        history.run_history(ctx, scs, nwalks)
+        for sc in scs:
+            sc.require_equal_windows()
+    fx.reset_all()
+
+
+def _tick(label, _t=[None]):
+    import time
+    if os.environ.get('VERIF_TIMING'):
+        now = time.time()
+        if _t[0] is not None:
+            print('TIMING %-28s %.1fs' % (label, now - _t[0]), flush=True)
+        _t[0] = now
+
+
 def run(ctx):
     q = ctx.tier == 'quick'
+    _tick('start')
     ctx.bounds = dict(tier=ctx.tier,
                       exhaustive='3 layers x 2 wavenumbers, per-layer depth rows over {0,1,15} ln2 (quick) / {0,1,3,15} and 4 layers (thorough), '
-                                 '3 temperatures, quadratures with 1/mu in {1,2,4}',
-                      vectors='3 (4) layers, rows with distinct depths incl. saturated columns, 6..27 temperature profiles, 5 quadratures, eclipse + direct',
-                      traces='random atmospheres 2..30 layers, 2..5 wavenumbers, ngauss 1..8, depths 0..60 ln2 per layer')
+                                 '3 temperatures, quadratures with 1/mu in {1,2,4}; k-table mode: 2 layers, 2-3 points, 6 rows, 2 weight sets',
+                      vectors='3 (4) layers, rows with distinct depths incl. saturated columns, 6..27 temperature profiles, 5 quadratures, eclipse + direct; '
+                              'k-table mode: 2-3 layers, 2-3 points with different coefficients, visible and opaque surfaces',
+                      traces='random atmospheres 2..30 layers, 2..5 wavenumbers, ngauss 1..8, depths 0..60 ln2 per layer; random k-table atmospheres',
+                      history='TLC-generated set/eval walks (depth 9, 3 settings x 3 values) on long-lived Emission / DirectImage models')
     ctx.assumptions = ['Planck table: plain-Python CODATA-2018 evaluation in the harness (compared with the repository kernel as a separate clause)',
                        'per-layer cross-sections are scaled with the model\'s own deltaz and densityProfile (layer geometry is C11)',
+                       'k-table files: PickleKTable layout written by the harness; pressure grid = layer pressures, values constant in T',
+                       'history: every model owns the opacity / k-table objects it has loaded (installed in the cache singletons '
+                       'through their public API for its own evaluations)',
                        'TLC + CommunityModules Json/IOUtils; exported term lists evaluated with Python Fractions']
     ctx.check_spec('exhaustive', 'MC_Emission', 'MC_Emission_%s.cfg' % ctx.tier, deque=True,
                    need_actions=('Surface', 'Layer', 'Integrate', 'Normalise'))
     ctx.check_spec('exhaustive-quadratures', 'MC_Emission', 'MC_Emission_quads.cfg', deque=True)
     if not q:
         ctx.check_spec('exhaustive-4-layers', 'MC_Emission', 'MC_Emission_thorough4.cfg', deque=True)
+    ctx.check_spec('exhaustive-ktable', 'MC_EmissionK', 'MC_EmissionK_quick.cfg', deque=True,
+                   need_actions=('EKEmit', 'EKIntegrate', 'EKNormalise'))
+    ctx.check_spec('exhaustive-ktable-3-points', 'MC_EmissionK', 'MC_EmissionK_quick3.cfg', deque=True)
+    if not q:
+        ctx.check_spec('exhaustive-ktable-3-layers', 'MC_EmissionK', 'MC_EmissionK_thorough.cfg', deque=True)
     ctx.exhaustive = True
+    _tick('exhaustive')
     ctx.expect_refuted('refute-clamp-one-side', 'MC_Emission', 'MC_Emission_refute_clamp.cfg', 'Telescoping')
     ctx.expect_refuted('refute-range-off-by-one', 'MC_Emission', 'MC_Emission_refute_range.cfg', 'IsothermalIdentity')
     ctx.expect_refuted('refute-weights', 'MC_Emission', 'MC_Emission_refute_weights.cfg', 'FluxIsothermalIdentity')
+    ctx.expect_refuted('refute-slant-outside-k-sum', 'MC_EmissionK', 'MC_EmissionK_refute_slant.cfg', 'EKTelescoping')
+    _tick('refutations')
     check_planck(ctx)
     cfgs = ['EX_Emission_quick.cfg', 'EX_Emission_quads.cfg'] if q else \
            ['EX_Emission_thorough.cfg', 'EX_Emission_quads.cfg', 'EX_Emission_thorough4.cfg']
+    ratios = []          # the direct-image constant is one number over BOTH opacity modes
     for cfg in cfgs:
-        run_vectors(ctx, cfg, cfg[3:-4])
-    run_traces(ctx, 60 if q else 600)
+        run_vectors(ctx, cfg, cfg[3:-4], ratios)
+        _tick('vectors ' + cfg)
+    for cfg in (['EX_EmissionK_quick.cfg', 'EX_EmissionK_quick3.cfg'] if q else ['EX_EmissionK_thorough.cfg', 'EX_EmissionK_quick3.cfg']):
+        run_kvectors(ctx, cfg, cfg[3:-4], ratios)
+        _tick('vectors ' + cfg)
+    finish_direct_law(ctx, ratios)
+    run_traces(ctx, 60 if q else 600, 16 if q else 160)
+    _tick('traces')
+    run_histories(ctx, 8 if q else 80)
+    _tick('histories')
 
 
 def replay(ctx, violations):
-    """Vectors are replayed one by one; trace cases are regenerated from (seed, model index)."""
-    done_trace = False
+    """Vectors are replayed one by one; trace cases are regenerated from (seed, model index); histories are re-run."""
+    done_trace = done_ktrace = done_hist = False
     for v in violations:
         vec = v['vector'] or {}
-        if vec.get('trace'):
+        if vec.get('history'):
+            if not done_hist:
+                run_histories(ctx, 8)
+                done_hist = True
+        elif vec.get('trace') and vec.get('kmode'):
+            if not done_ktrace:
+                ctx.seed = vec.get('seed', ctx.seed)
+                run_traces(ctx, 0, max(vec.get('model_index', 0) + 1, 16))
+                done_ktrace = True
+        elif vec.get('trace'):
             if not done_trace:
                 ctx.seed = vec.get('seed', ctx.seed)
                 run_traces(ctx, max(vec.get('model_index', 0) + 1, 60))
                 done_trace = True
         elif vec.get('what') == 'planck':
             check_planck(ctx)
+        elif 'kint' in vec:
+            cache = dict(bstar_spec=[7, 11], direct_ratios=[])
+            with fx.TempDir() as d:
+                check_kvector_group(ctx, d, vec['tp'], [vec], cache)
+            for r, cls, vv in cache['direct_ratios']:
+                ctx.verdict('direct_image_proportional', math.isfinite(r) and r > 0, cls=cls, detail='ratio %r' % r, vector=vv)
         else:
             cache = dict(bstar_spec=[7, 11], direct_ratios=[])
             check_vector_group(ctx, vec['tp'], [vec], cache)
